@@ -160,7 +160,19 @@ def discover_digest():
     return d
 
 
-def step(kind):
+def arbitrary_like(name, sample):
+    """an arbitrary value of the kind `sample` has (pre-state of an attribute the invariant says nothing about)"""
+    from vf.pysym.values import SOpaque, Obj, SInt, SBool
+    if isinstance(sample, (SStr, str)):
+        return SStr(z3.String("pre_" + name))
+    if isinstance(sample, bool):
+        return SBool(z3.Bool("pre_" + name))
+    if isinstance(sample, int):
+        return SInt(z3.Int("pre_" + name))
+    return SOpaque(z3.Const("pre_" + name, Obj))
+
+
+def step(kind, pre_extras=None):
     """entry(interp) -> snapshot tuple"""
     def entry(it):
         env = it.import_module(EVAL)
@@ -180,6 +192,8 @@ def step(kind):
             old_fn = OldFn("old-function")
             inst.attrs["_checksum"] = md5.value(t_old)
             inst.attrs["run_experiment"] = old_fn
+            for n_, s_ in (pre_extras or {}).items():
+                inst.attrs[n_] = arbitrary_like(n_, s_)
             before = dict(inst.attrs)
             try:
                 it.call(it.getattr(inst, "recompile"), [t_new], {})
@@ -201,6 +215,8 @@ def step(kind):
             old_fn = OldFn("old-function")
             inst.attrs["_checksum"] = md5.value(t_old)
             inst.attrs["run_experiment"] = old_fn
+            for n_, s_ in (pre_extras or {}).items():
+                inst.attrs[n_] = arbitrary_like(n_, s_)
             before = dict(inst.attrs)
             x = SStr(z3.String("arg_x"))
             try:
@@ -225,11 +241,11 @@ def checksum_term(v):
     return None
 
 
-def analyse(kind, timeout_ms):
+def analyse(kind, timeout_ms, pre_extras=None):
     common.setup_path()
     tally = Tally()
     out = {"status": "ok", "witnesses": [], "paths": 0, "reach": 0, "encoded": {}, "stubs": [], "name": kind}
-    run = api.run(step(kind), opts={"float_mode": "real", "prune": True}, setup=setup_stubs)
+    run = api.run(step(kind, pre_extras), opts={"float_mode": "real", "prune": True}, setup=setup_stubs)
     out["paths"] = len(run.paths)
     out["encoded"] = run.encoded_digest()
     out["stubs"] = run.notes
@@ -277,6 +293,7 @@ def analyse(kind, timeout_ms):
                                          kind, extra, " and writes it on a path that raises" if failing else ""),
                                      "plain": ""})
             out["extra_state"] = extra
+            out.setdefault("extra_samples", {}).update({n_: snap["after"].get(n_) for n_ in extra})
         if snap["class_changed"] or snap["module_changed"] or snap["other_changed"] or foreign:
             out["witnesses"].append({"kind": "lifecycle_search", "scenario": "isolation",
                                      "why": "%s writes outside the instance: class %s module %s other-instance %s effects %s" % (
@@ -342,6 +359,24 @@ def analyse(kind, timeout_ms):
             if not _same_checksum(tally, conds, before, after, timeout_ms):
                 bad("a failed recompile (%s) changes the stored checksum: the same invalid text is then silently "
                     "accepted" % outcome, "repeat")
+    if out.get("extra_state") and pre_extras is None:
+        # Additional attributes: strengthen the invariant to "I and these attributes hold ANYTHING" and repeat the step
+        # analysis (recompile and __call__) from such pre-states.  If every obligation still holds, the attributes cannot
+        # influence behaviour (write-only bookkeeping such as a copy of the source) and induction goes through; otherwise
+        # the bounded history search below has to decide.
+        samples = out.get("extra_samples", {})
+        inert = True
+        for k2 in ("recompile", "call"):
+            sub = analyse(k2, timeout_ms, pre_extras=samples)
+            tally.merge(sub["tally"])
+            out["paths"] += sub["paths"]
+            if sub["status"] != "ok" or [w for w in sub["witnesses"] if w["scenario"] != "extra-state"]:
+                inert = False
+        if inert:
+            out["witnesses"] = [w for w in out["witnesses"] if w["scenario"] != "extra-state"]
+            out["stubs"] = list(out["stubs"]) + ["invariant strengthened: attributes %s may hold any value before a step "
+                                                 "(no obligation depends on them)" % sorted(samples)]
+    out.pop("extra_samples", None)     # symbolic values: not to be sent back through the worker pool
     out["tally"] = tally
     return out
 
